@@ -6,6 +6,7 @@ import numpy as np
 
 from mc import dom, fix_inv
 from mc.core import V
+from mc.ref import rectangular as ref_rect
 
 ID = "C07"
 ENGINE = "scope"
@@ -25,9 +26,21 @@ RULE = (
     "read, the regularization attribute is re-assigned, and the inversion must contain the block of the CURRENT scheme. "
     "'U' = (data plane, ordered pair of different meshes, scheme, parameter tuple, adapt kind): ONE scheme instance is "
     "applied to mesh A, then to mesh B, then to A again; every matrix must equal the one of a fresh instance and obey all "
-    "laws. non-trivial = S: mesh is non-square or Delaunay, or the scheme is adaptive with a non-constant weight vector; "
-    "B: list has >= 2 objects with at least one unregularized and one regularized object; P, R, U: always (every case is a "
-    "two-step history)"
+    "laws. 'K' = (data plane, mesh [rectangular 5..7 x 5..7 | vertex-set menu: jittered lattice, uniform, ring + centre, nearly "
+    "coincident pairs], kernel scheme, coefficient, kernel scale as a multiple 0.1..10 of the FIELD size): GaussianKernel / "
+    "ExponentialKernel from well separated to completely overlapping kernels; the matrix is compared with coefficient * C^-1 "
+    "for the covariance C written from the definition (kernel of the pair distance + the documented 1e-8 ridge on the "
+    "diagonal; spectral inverse), norm-wise, as a quadratic form on every eigenvector of C relative to its own value, for "
+    "symmetry, strict positive definiteness of the symmetric part (+ Cholesky of the matrix as returned where round-off "
+    "cannot decide it) and for the log-determinant read from a real aa.Inversion - every tolerance a multiple of "
+    "eps * cond(C) of the reference. 'M' = (mask, ordered list of 2..3 objects in which the SAME instance occurs more than "
+    "once [aa, aaa, aab, aba, baa over the five kinds; and a, a, a' with a' a second instance of the same kind in the other "
+    "regularization state], every on/off pattern of the distinct instances, formalism): block layout with one block per "
+    "OCCURRENCE, zero blocks, regularization_matrix_reduced, log_det_regularization_matrix_term (sum over occurrences), "
+    "curvature_reg_matrix_reduced against reference F + H on the regularized occurrences and its log-determinant, re-read "
+    "after the solve. non-trivial = S: mesh is non-square or Delaunay, or the scheme is adaptive with a non-constant weight "
+    "vector; B: list has >= 2 objects with at least one unregularized and one regularized object; K: cond(C) >= 1e8 (the "
+    "ridge, not the kernel, bounds the smallest eigenvalue); P, R, U, M: always"
 )
 ASSUMPTIONS = [
     "a quadratic form is determined by its (symmetric) matrix, so the stated x^T H x identities are checked by comparing "
@@ -48,6 +61,27 @@ ASSUMPTIONS = [
     ".regularization is the library's own idiom for deriving an object with another scheme; for the kernel schemes the "
     "reuse pass additionally demands H C = coefficient * I for the documented covariance C of the SECOND mesh, but only when "
     "the first use of the same instance obeys that formula (self-calibrated, so a changed kernel definition cannot alarm)",
+    "family K: the kernel schemes return coefficient * inv(C) of a covariance whose condition number reaches n * 1e8 once the "
+    "kernel scale exceeds a few mesh spacings (the 1e-8 ridge documented in gauss_cov_matrix_from / exp_cov_matrix_from is "
+    "then the smallest eigenvalue). A numerically inverted matrix is only defined up to ~eps * cond(C) relative to its norm, "
+    "so: symmetry 20 * eps * cond (observed <= 0.4), norm-wise distance to the spectral inverse of the reference covariance "
+    "100 * eps * cond (observed <= 6), q_k^T H q_k against coefficient / lambda_k on the eigenpairs of C 200 * eps * cond "
+    "relative to each value (observed <= 11; first-order perturbation theory of the column-wise backward error gives "
+    "sqrt(n) * eps * cond), log-determinant 1e-8 * (1 + |logdet|) + 50 * n * eps * cond (observed <= 1.1 * n * eps * cond). "
+    "Strict positive definiteness is demanded of the symmetric part (x^T H x > 0 for all x; smallest eigenvalue "
+    "coefficient / lambda_max(C) >= coefficient / (n + 1), resolved by eigvalsh to ~1e-8 * coefficient) together with its "
+    "Cholesky factorization and a positive determinant sign; np.linalg.cholesky of the matrix AS RETURNED reads one triangle "
+    "only and is demanded where 100 * eps * cond * ||H|| stays below the smallest eigenvalue (on the unchanged tree it fails "
+    "by round-off for some GaussianKernel scales >= 1 x field although the symmetric part is PD - not counted against the "
+    "property, whose evidence terms use an LU-based log-determinant for H and factorize F + H)",
+    "family K: MaternKernel is not enumerated - its constructor raises ModuleNotFoundError without numba_scipy (absent here) "
+    "and the property's quantifier lists GaussianKernel and ExponentialKernel only; vertex sets of this family are handed to "
+    "Mesh2DDelaunay but only their positions are used (no adjacency is modelled, nearly coincident vertices are allowed)",
+    "family M: only the observables of the property and their reduced / log-determinant companions are demanded. The library "
+    "keys its per-object dictionaries (reconstruction_dict, mapped_reconstructed_data_dict ...) by linear object, so "
+    "per-object quantities are not defined for a list with a repeated instance and are not read here; the unchanged tree "
+    "supports regularization_matrix(_reduced), curvature_reg_matrix(_reduced), both log-determinant terms and reconstruction "
+    "for every such list in both formalisms (established by running them)",
 ]
 BOUNDS = {
     "quick": "S: rectangular meshes 3..6 x 3..6 (16 shapes), 8 Delaunay menus (5..10 vertices) x 2 jitter variants; coefficients "
@@ -57,10 +91,15 @@ BOUNDS = {
              "of {rectA,rectB,del,func,funcS} x every on/off pattern x use_w_tilde on/off. P: every ordered pair of kinds x the 3 "
              "patterns with >= 1 regularized + 4 triples, 1 mask, both formalisms. R: 5 kinds x 3 transitions x 3 layouts x both "
              "formalisms, 1 mask. U: 9 mesh pairs (rect 3x3/3x5/5x3/4x4, Delaunay menus; equal and unequal sizes) x 13 "
-             "scheme/parameter tuples (split-cross on the 3 Delaunay pairs only)",
+             "scheme/parameter tuples (split-cross on the 3 Delaunay pairs only). K: 1 data plane, rectangular 5..7 x 5..7 "
+             "(9 shapes) + 7 vertex sets (lattice 16/25/36, uniform 20/30, ring 13, pairs 16) x {Gaussian, Exponential} x scale/"
+             "field {0.1,0.2,0.5,1,2,5,10} at coefficient 1 and {0.5,5} at coefficients 0.1, 7 (352 cases). M: 1 mask, every list "
+             "aa, aaa, aab, aba, baa over 5 kinds + a,a,a' arrangements (290 lists with their on/off patterns) x both formalisms",
     "thorough": "S: rectangular meshes 3..7 x 3..7 (25 shapes), 8 Delaunay menus x 3 jitter variants; same value menus with the "
                 "full coefficient-pair grids; all 20 data planes for adaptive schemes, 4 for the others. B: as quick on 3 masks; "
-                "P, R: as quick on 3 masks; U: as quick on 2 data planes",
+                "P, R: as quick on 3 masks; U: as quick on 2 data planes. K: 3 data planes, 9 rectangular shapes + 11 vertex "
+                "sets (adds lattice 49, uniform 40, ring 25, pairs 24), full coefficient x scale grid. M: 3 masks, the quick lists "
+                "+ every list of 4 over two instances of {rectA, del, func, funcS} that uses both",
 }
 
 COEFFS = [0.1, 1.0, 7.0]
@@ -188,6 +227,36 @@ def delaunay_vertices(menu, variant, seed):
     raise RuntimeError("no general-position vertex set for %s" % menu)
 
 
+KERNEL_VERTEX_MENUS = [["lattice", 16], ["lattice", 25], ["lattice", 36], ["uniform", 20], ["uniform", 30], ["ring", 13], ["pairs", 16]]
+KERNEL_VERTEX_MENUS_THOROUGH = KERNEL_VERTEX_MENUS + [["lattice", 49], ["uniform", 40], ["ring", 25], ["pairs", 24]]
+
+
+def kernel_vertices(menu, n, seed, s):
+    """
+    Vertex set of `n` points for the kernel-scheme family 'K', laid over the bounding box of the source-plane grid `s`:
+    jittered lattice, uniform random, ring + centre, and pairs of nearly coincident vertices (separation 1e-5 of the field,
+    where the covariance is nearly singular whatever the scale). Only the positions enter the kernel schemes.
+    """
+    r = dom.rng(seed, "c07kpts", menu, n)
+    if menu == "lattice":
+        m = int(round(np.sqrt(n)))
+        g = (np.arange(m) + 0.5) / m - 0.5
+        p = np.array([[y, x] for y in g[::-1] for x in g]) + r.uniform(-0.2, 0.2, size=(m * m, 2)) / m
+    elif menu == "uniform":
+        p = r.uniform(-0.5, 0.5, size=(n, 2))
+    elif menu == "ring":
+        a = 2 * np.pi * np.arange(n - 1) / (n - 1) + 0.1
+        p = np.concatenate([0.5 * np.stack([np.sin(a), np.cos(a)], axis=1), [[0.01, -0.02]]]) + r.uniform(-0.01, 0.01, size=(n, 2))
+    elif menu == "pairs":
+        h = n // 2
+        q = r.uniform(-0.5, 0.5, size=(h, 2))
+        p = np.concatenate([q, q + 1e-5 * r.uniform(-1, 1, size=(h, 2))])
+    else:
+        raise ValueError(menu)
+    lo, hi = s.min(axis=0), s.max(axis=0)
+    return (lo + hi) / 2.0 + p * (hi - lo)
+
+
 def pair_matrix(n, edges, pairw, ridge=1e-8):
     """sum over unordered neighbouring pairs of pairw(i,j) * (e_i - e_j)(e_i - e_j)^T + ridge * I."""
     H = np.zeros((n, n))
@@ -239,6 +308,12 @@ def build_mapper(plane, mesh, adapt, seed, regularization=None):
         mg = aa.Mesh2DRectangular.overlay_grid(shape_native=(R, C), grid=sg)
         n, edges = R * C, rect_edges(R, C)
         spacing = max(ext, 1.0) / ((R + C) / 2.0)
+    elif mesh[0] == "pts":
+        # vertex sets of the 'K' family: only the vertex positions matter to the kernel schemes, so no adjacency is modelled
+        pts, edges = kernel_vertices(mesh[1], mesh[2], seed, s), None
+        mg = aa.Mesh2DDelaunay(values=aa.Grid2DIrregular(values=pts))
+        n = len(pts)
+        spacing = max(ext, 1.0) / np.sqrt(n)
     else:
         pts, edges = delaunay_vertices(mesh[1], mesh[2], seed)
         scale = max(1.0, np.abs(s).max() / 2.0)
@@ -322,6 +397,48 @@ def block_lists():
     return out
 
 
+KFIELD_SCALES = [0.1, 0.2, 0.5, 1.0, 2.0, 5.0, 10.0]  # kernel scale / field size of the 'K' family
+
+
+def repeat_lists(tier):
+    """
+    [labels, regs]: every ordered list of 2..3 instance labels over the five kinds in which at least one instance occurs
+    more than once, x every on/off pattern of the DISTINCT instances (one instance has one regularization); label "k'" is a
+    second, separately built instance of kind k carrying the opposite on/off state of "k" (same kind, not the same object).
+    thorough adds every list of 4 over two instances of {rectA, del, func, funcS} that uses both.
+    """
+    out = []
+
+    def add(labels):
+        distinct = sorted(set(labels), key=labels.index)
+        free = [d for d in distinct if not d.endswith("'")]
+        for bits in itertools.product((True, False), repeat=len(free)):
+            on = dict(zip(free, bits))
+            for d in distinct:
+                if d.endswith("'"):
+                    on[d] = not on[d[:-1]]
+            out.append([list(labels), [on[l] for l in labels]])
+
+    for a in KINDS:
+        add([a, a])
+    for a in KINDS:
+        add([a, a, a])
+        for b in KINDS:
+            if b != a:
+                for labels in ([a, a, b], [a, b, a], [b, a, a]):
+                    add(labels)
+    for a in KINDS:
+        for labels in ([a, a, a + "'"], [a, a + "'", a], [a + "'", a, a]):
+            add(labels)
+    if tier == "thorough":
+        four = ("rectA", "del", "func", "funcS")
+        for a, b in itertools.combinations(four, 2):
+            for pat in itertools.product((0, 1), repeat=4):
+                if 0 < sum(pat) < 4:
+                    add([(a, b)[k] for k in pat])
+    return out
+
+
 def cases(tier, seed):
     rs = (3, 4, 5, 6) if tier == "quick" else (3, 4, 5, 6, 7)
     meshes = [["rect", R, C] for R in rs for C in rs]
@@ -342,11 +459,31 @@ def cases(tier, seed):
             for c in (1.0,):
                 for sc in (0.7, 1.0, 1.5):
                     yield ["S", ["full", 1, "identity"], mesh, name, [c, sc], "-", seed]
+    # kernel schemes from well separated to strongly overlapping kernels (scale = f x field): beyond f ~ 0.3 the smallest
+    # eigenvalue of the bare kernel matrix drops below the documented 1e-8 ridge, which is then what keeps the matrix PD
+    krs = (5, 6, 7)
+    kmeshes = [["rect", R, C] for R in krs for C in krs]
+    kmeshes += [["pts", m, n] for m, n in (KERNEL_VERTEX_MENUS if tier == "quick" else KERNEL_VERTEX_MENUS_THOROUGH)]
+    kplanes = [["ragged", 2, "warp"]] if tier == "quick" else [["ragged", 2, "warp"], ["full", 1, "identity"], ["two", 1, "warp"]]
+    for plane in kplanes:
+        for mesh in kmeshes:
+            for name in ("GaussianKernel", "ExponentialKernel"):
+                for c in COEFFS:
+                    for f in KFIELD_SCALES:
+                        if tier == "quick" and c != 1.0 and f not in (0.5, 5.0):
+                            continue
+                        yield ["K", plane, mesh, name, [c, f], seed]
     bmasks = ["full", "ragged"] if tier == "quick" else ["full", "ragged", "two"]
     for ol in block_lists():
         for mname in bmasks:
             for wt in (False, True):
                 yield ["B", mname, ol, wt, seed]
+    # ordered lists in which the SAME instance occurs more than once
+    mmasks = ["ragged"] if tier == "quick" else ["ragged", "full", "two"]
+    for mname in mmasks:
+        for ol in repeat_lists(tier):
+            for wt in (False, True):
+                yield ["M", mname, ol, wt, seed]
     # two-step histories (each one lives inside ONE case)
     hmasks = ["ragged"] if tier == "quick" else ["ragged", "full", "two"]
     for mname in hmasks:
@@ -865,9 +1002,263 @@ def run_reuse(v, case):
              % (_mesh_tag(mesh_a), _mesh_tag(mesh_b), name, Hi.shape, E.shape, dom.maxdiff(Hi, E) if Hi.shape == E.shape else "n/a"))
 
 
+EPS = float(np.finfo(float).eps)
+
+
+def kernel_covariance(name, pts, scale):
+    """The documented covariance of the kernel schemes, from the definition: C_ij = k(|p_i - p_j|) + 1e-8 * delta_ij."""
+    n = len(pts)
+    C = np.zeros((n, n))
+    for i in range(n):
+        for j in range(n):
+            d2 = (pts[i, 0] - pts[j, 0]) ** 2 + (pts[i, 1] - pts[j, 1]) ** 2
+            C[i, j] = np.exp(-np.sqrt(d2) / scale) if name == "ExponentialKernel" else np.exp(-d2 / (2.0 * scale ** 2))
+        C[i, i] += 1e-8
+    return C
+
+
+def run_kernel(v, case):
+    """
+    Kernel schemes over the whole range of scale / mesh spacing. All tolerances are multiples of eps * cond(C) of the
+    REFERENCE covariance C (cond <= n * 1e8 by construction of the ridge), never of a quantity derived from the library's output.
+    """
+    import autoarray as aa
+
+    _, plane, mesh, name, (coef, f), seed = case
+    fx, mapper, n, _, _ = build_mapper(plane, mesh, "-", seed)
+    _, s = fix_inv.source_plane(fx, plane[2], seed)
+    field = (np.ptp(s[:, 0]) + np.ptp(s[:, 1])) / 2.0
+    scale = f * field
+    pts = ref_rect.overlay_geometry(s, (mesh[1], mesh[2]))["centres"] if mesh[0] == "rect" else kernel_vertices(mesh[1], mesh[2], seed, s)
+    got_pts = np.array(mapper.source_plane_mesh_grid, dtype=float).reshape(-1, 2)
+    if not v.ok(got_pts.shape == pts.shape and bool(np.all(np.abs(got_pts - pts) <= 1e-9 * field)), "kernel:mesh-points",
+                lambda: "mesh centres/vertices of the mapper differ from the independent ones by %s" % dom.maxdiff(got_pts, pts)):
+        return
+    C = kernel_covariance(name, pts, scale)
+    lam, Q = np.linalg.eigh(C)
+    cond = float(lam[-1] / lam[0])
+    u = EPS * cond
+    regime = "separated" if cond < 1e4 else ("overlapping" if cond < 1e8 else "ridge-dominated")
+    v.nontrivial = cond >= 1e8
+    v.outcome = "K/%s/%s/%s" % (name, mesh[0], regime)
+
+    scheme = getattr(aa.reg, name)(coefficient=coef, scale=scale)
+    try:
+        H = scheme.regularization_matrix_from(linear_obj=mapper)
+    except Exception as e:  # e.g. LinAlgError('Singular matrix'): the property says the matrix exists and is PD
+        v.fail("%s:not-pd" % name, "regularization_matrix_from raised %r (scale = %s x field, cond(C) = %.2e)" % (e, f, cond))
+        return
+    ok = v.ok(isinstance(H, np.ndarray) and H.ndim == 2 and H.shape == (n, n), "%s:size" % name,
+              lambda: "matrix shape %s, linear object has %d parameters" % (getattr(H, "shape", None), n))
+    if not ok:
+        return
+    H = np.array(H, dtype=float)
+    if not v.ok(bool(np.all(np.isfinite(H))), "%s:not-finite" % name, "non-finite entries"):
+        return
+    w = np.array(scheme.regularization_weights_from(linear_obj=mapper), dtype=float)
+    v.ok(w.shape == (n,) and bool(np.all(np.isfinite(w))), "%s:weights" % name, lambda: "weights shape %s" % (w.shape,))
+    tag = "%s %s scale=%sxfield coefficient=%s cond(C)=%.2e" % (name, mesh, f, coef, cond)
+
+    # ---- symmetry (observed <= 0.4 * eps * cond)
+    hmax = max(_absmax(H), 1e-300)
+    asym = _absmax(H - H.T) / hmax
+    symtol = max(1e-12, 20.0 * u)
+    v.ok(asym <= symtol, "%s:not-symmetric" % name, lambda: "%s: max|H-H^T|/max|H| = %.3e (tolerance %.1e)" % (tag, asym, symtol))
+
+    # ---- the matrix is coefficient * C^-1: norm-wise against the spectral inverse of the reference (observed <= 6 * eps * cond)
+    Href = coef * (Q / lam) @ Q.T
+    rel = _absmax(H - Href) / _absmax(Href)
+    reltol = max(1e-12, 100.0 * u)
+    v.ok(rel <= reltol, "%s:matrix" % name,
+         lambda: "%s: max|H - coefficient*C^-1| / max|coefficient*C^-1| = %.3e (tolerance %.1e), C = kernel + 1e-8 I" % (tag, rel, reltol))
+
+    # ---- quadratic form on the eigenvectors q_k of C: q_k^T H q_k = coefficient / lambda_k, RELATIVE to each value, i.e. also
+    # for the smooth modes whose value (~coefficient/n) is 1e-10 of ||H|| (observed <= 11 * eps * cond)
+    qf = np.einsum("ik,ij,jk->k", Q, H, Q)
+    qrel = float(np.max(np.abs(qf * lam / coef - 1.0)))
+    qtol = max(1e-12, 200.0 * u)
+    v.ok(qrel <= qtol, "%s:quadratic-form" % name,
+         lambda: "%s: max_k |q_k^T H q_k * lambda_k / coefficient - 1| = %.3e (tolerance %.1e) over the eigenpairs of C; min q^T H q = %.6e"
+         % (tag, qrel, qtol, float(qf.min())))
+
+    # ---- strictly positive definite: x^T H x > 0 for all x <=> the symmetric part is PD. eigvalsh resolves eps*||H|| ~ 1e-8*coef,
+    # the smallest eigenvalue is coefficient/lambda_max(C) >= coefficient/(n+1)
+    Hs = (H + H.T) / 2.0
+    ev = np.linalg.eigvalsh(Hs)
+    try:
+        np.linalg.cholesky(Hs)
+        chol = True
+    except np.linalg.LinAlgError:
+        chol = False
+    sign, _ = np.linalg.slogdet(H)
+    v.ok(ev[0] > 0 and chol and sign > 0, "%s:not-pd" % name,
+         lambda: "%s: min eigenvalue of (H+H^T)/2 = %.6e (reference %.6e), cholesky %s, slogdet sign %s"
+         % (tag, ev[0], coef / lam[-1], "ok" if chol else "FAILED", sign))
+    # the factorization of H as returned (LAPACK reads one triangle) is demanded where round-off asymmetry (~eps*cond*||H||)
+    # cannot reach the smallest eigenvalue
+    if 100.0 * u * _absmax(Href) < coef / lam[-1]:
+        try:
+            np.linalg.cholesky(H)
+            chol_raw = True
+        except np.linalg.LinAlgError:
+            chol_raw = False
+        v.ok(chol_raw, "%s:not-pd" % name, lambda: "%s: np.linalg.cholesky(H) failed" % tag)
+        v.outcome += "/chol-as-returned"
+
+    # ---- through a real inversion: same block, and the log-determinant used by the evidence exists and is that of coefficient*C^-1
+    scheme2 = getattr(aa.reg, name)(coefficient=coef, scale=scale)
+    fx2, mapper2, _, _, _ = build_mapper(plane, mesh, "-", seed, regularization=scheme2)
+    inv = aa.Inversion(dataset=fx2["ds"], linear_obj_list=[mapper2], settings=fix_inv.settings(aa, False))
+    Hi = np.array(inv.regularization_matrix, dtype=float)
+    v.ok(dom.exact(Hi, H), "inversion:block-placement", lambda: "%s: inversion.regularization_matrix differs from the scheme's matrix by %s" % (tag, dom.maxdiff(Hi, H)))
+    Hr = np.array(inv.regularization_matrix_reduced, dtype=float)
+    v.ok(dom.exact(Hr, H), "inversion:reduced", lambda: "%s: reduced matrix differs by %s" % (tag, dom.maxdiff(Hr, H)))
+    ld_ref = n * np.log(coef) - float(np.sum(np.log(lam)))
+    ld_tol = 1e-8 * (1.0 + abs(ld_ref)) + 50.0 * n * u  # observed <= 1.1 * n * eps * cond
+    try:
+        ld = float(np.real(inv.log_det_regularization_matrix_term))
+    except Exception as e:
+        v.fail("%s:log-det" % name, "%s: log_det_regularization_matrix_term raised %r" % (tag, e))
+        return
+    v.ok(np.isfinite(ld) and abs(ld - ld_ref) <= ld_tol, "%s:log-det" % name,
+         lambda: "%s: log_det_regularization_matrix_term = %.12g, n*log(coefficient) - log det C = %.12g, tol = %.3g" % (tag, ld, ld_ref, ld_tol))
+
+
+def run_repeat(v, case):
+    """Ordered object lists in which the same INSTANCE occurs more than once: block layout, reduced matrices, log-determinants."""
+    import autoarray as aa
+
+    _, mname, (labels, regs), wt, seed = case
+    sfx = ":repeated-instance"
+    kinds = [l.rstrip("'") for l in labels]
+    first = {}
+    for pos, l in enumerate(labels):
+        first.setdefault(l, pos)
+    on = dict(zip(labels, regs))
+    v.nontrivial = True
+    shape = "".join("abc"[sorted(first, key=first.get).index(l)] for l in labels)
+    v.outcome = "M/%s/%s/%s" % (shape, "".join("r" if r else "u" for r in regs), "wt" if wt else "map")
+
+    def build():
+        fx = fix_inv.make_dataset(FRAME, KSHAPE, mask_bits(mname), seed=seed, sub=1)
+        inst = {}
+        for l, p in first.items():
+            o = fix_inv.make_obj(fx, l.rstrip("'"), reg=False, seed=seed)
+            if on[l]:
+                o.regularization = block_scheme(aa, l.rstrip("'"), p)
+            inst[l] = o
+        return fx, [inst[l] for l in labels]
+
+    # expected blocks from independently built twins (never the objects handed to the inversion)
+    fxt, twins = build()
+    widths = [PARAMS[k] for k in kinds]
+    blocks = []
+    for o, k, r, wd in zip(twins, kinds, regs, widths):
+        if r:
+            b = np.array(o.regularization.regularization_matrix_from(linear_obj=o), dtype=float)
+            if not v.ok(b.shape == (wd, wd), "%s:size" % type(o.regularization).__name__, lambda: "%s block shape %s, params %d" % (k, b.shape, wd)):
+                return
+            blocks.append(b)
+        else:
+            blocks.append(None)
+    E = expected_blocks(widths, blocks)
+    keep = _keep(widths, regs)
+    Er = E[np.ix_(keep, keep)] if keep else np.zeros((0, 0))
+    P = sum(widths)
+    tag = "[%s] regularized %s, %s" % (", ".join(labels), "".join("r" if r else "u" for r in regs), "w-tilde" if wt else "mapping")
+
+    fx, objs = build()
+    for a, la in enumerate(labels):  # the list really holds one object per label
+        for b, lb in enumerate(labels):
+            assert (objs[a] is objs[b]) == (la == lb)
+    inv = aa.Inversion(dataset=fx["ds"], linear_obj_list=objs, settings=fix_inv.settings(aa, wt))
+    held_r = inv.regularization_matrix_reduced
+    H = np.array(inv.regularization_matrix, dtype=float)
+    if not v.ok(H.shape == (P, P), "inversion:block-placement" + sfx, lambda: "%s: regularization_matrix shape %s, total parameters %d" % (tag, H.shape, P)):
+        return
+    covered = np.zeros((P, P), dtype=bool)
+    off = 0
+    for l, r, wd, b in zip(labels, regs, widths, blocks):
+        sl = slice(off, off + wd)
+        covered[sl, sl] = True
+        got = H[sl, sl]
+        if r:
+            v.ok(dom.exact(got, b), "inversion:block-placement" + sfx,
+                 lambda: "%s: block of %s at [%d:%d] differs from that object's own matrix by %s" % (tag, l, off, off + wd, dom.maxdiff(got, b)))
+        else:
+            v.ok(not got.any(), "inversion:zero-block" + sfx, lambda: "%s: unregularized %s at [%d:%d] has max|block| = %s" % (tag, l, off, off + wd, _absmax(got)))
+        off += wd
+    v.ok(not H[~covered].any(), "inversion:block-placement" + sfx, lambda: "%s: non-zero entries outside the diagonal blocks, max %s" % (tag, _absmax(H[~covered])))
+    Hr = np.array(held_r, dtype=float)
+    v.ok(Hr.shape == Er.shape and dom.exact(Hr, Er), "inversion:reduced" + sfx,
+         lambda: "%s: regularization_matrix_reduced shape %s vs %s (regularized parameters %d of %d), maxdiff %s"
+         % (tag, Hr.shape, Er.shape, len(keep), P, dom.maxdiff(Hr, Er)))
+    # ---- log-determinant of the regularized blocks (one term per OCCURRENCE)
+    if keep:
+        ld_ref, tol = 0.0, 0.0
+        for b in blocks:
+            if b is not None:
+                l_, t_ = logdet_tol(b)
+                ld_ref, tol = ld_ref + l_, tol + t_
+    else:
+        ld_ref, tol = 0.0, 1e-12
+    try:
+        ld = float(np.real(inv.log_det_regularization_matrix_term))
+        v.ok(np.isfinite(ld) and abs(ld - ld_ref) <= tol, "inversion:log-det" + sfx,
+             lambda: "%s: log_det_regularization_matrix_term = %.12g, sum of slogdet over the regularized occurrences = %.12g, tol %.3g" % (tag, ld, ld_ref, tol))
+    except Exception as e:
+        v.fail("inversion:log-det" + sfx, "%s: log_det_regularization_matrix_term raised %r" % (tag, e))
+
+    # ---- F + H reduced to the regularized occurrences, F from the reference normal equations of the twins' own mapping matrices
+    B, wB = fix_inv.reference_B(fxt, twins)
+    if list(wB) != list(widths):
+        return
+    _, F_ref = fix_inv.normal_equations(B, fxt["data"], fxt["noise"])
+    FHr = (F_ref + E)[np.ix_(keep, keep)] if keep else np.zeros((0, 0))
+    try:
+        got = np.array(inv.curvature_reg_matrix_reduced, dtype=float)
+    except Exception as e:
+        v.fail("inversion:curvature_reg_matrix_reduced" + sfx, "%s: curvature_reg_matrix_reduced raised %r" % (tag, e))
+        return
+    if keep:  # with nothing regularized the library hands out a (0,0) or the full matrix - not a statement of the property
+        scl = max(1.0, _absmax(FHr))
+        v.ok(got.shape == FHr.shape and bool(np.allclose(got, FHr, rtol=1e-9, atol=1e-9 * scl)), "inversion:curvature_reg_matrix_reduced" + sfx,
+             lambda: "%s: curvature_reg_matrix_reduced shape %s vs %s, maxdiff %s" % (tag, got.shape, FHr.shape, dom.maxdiff(got, FHr)))
+        sign, _ = np.linalg.slogdet(FHr)
+        evF = np.linalg.eigvalsh((FHr + FHr.T) / 2.0)
+        if sign > 0 and evF[0] > 1e3 * EPS * evF[-1]:  # the reference itself is numerically PD
+            ldc_ref, tolc = logdet_tol(FHr)
+            try:
+                ldc = float(np.real(inv.log_det_curvature_reg_matrix_term))
+                v.ok(np.isfinite(ldc) and abs(ldc - ldc_ref) <= tolc, "inversion:log-det-curvature" + sfx,
+                     lambda: "%s: log_det_curvature_reg_matrix_term = %.12g, slogdet of the reduced F+H = %.12g, tol %.3g" % (tag, ldc, ldc_ref, tolc))
+                v.outcome += "/FH-pd"
+            except Exception as e:
+                v.fail("inversion:log-det-curvature" + sfx, "%s: log_det_curvature_reg_matrix_term raised %r" % (tag, e))
+    # ---- re-read after the solve, as in 'B'
+    try:
+        inv.reconstruction
+        solved = "solved"
+    except aa.exc.InversionException:
+        solved = "solver-exception"
+    v.outcome += "/" + solved
+    for what, g, want, cls in (
+        ("regularization_matrix_reduced re-read", inv.regularization_matrix_reduced, Er, "inversion:reduced:after-solve"),
+        ("regularization_matrix re-read", inv.regularization_matrix, E, "inversion:regularization_matrix:after-solve"),
+        ("array obtained from regularization_matrix_reduced at the first read", held_r, Er, "inversion:reduced:after-solve"),
+    ):
+        g = np.array(g, dtype=float)
+        v.ok(g.shape == want.shape and dom.exact(g, want), cls + sfx,
+             lambda: "%s: %s after reconstruction (%s): shape %s vs %s" % (tag, what, solved, g.shape, want.shape))
+
+
 def run_case(case):
     v = V(ID)
-    if case[0] == "S":
+    if case[0] == "K":
+        run_kernel(v, case)
+    elif case[0] == "M":
+        run_repeat(v, case)
+    elif case[0] == "S":
         run_scheme(v, case)
     elif case[0] == "B":
         run_blocks(v, case)
